@@ -60,6 +60,9 @@ func (x *fnExec) call(s *State, instr ssa.Instruction, c *ssa.CallCommon) []*Sta
 		}
 	}
 	name := calleeFullName(callee)
+	if in.Cfg.OnCall != nil {
+		in.Cfg.OnCall(instr, callee, args, s.h)
+	}
 	// modelled externals and special cases
 	if outs, handled := x.modelled(s, instr, callee, name, args, bindResult); handled {
 		return outs
@@ -421,6 +424,9 @@ func (x *fnExec) havocArgs(s *State, args []Value, external bool, writes bool) {
 
 func (x *fnExec) opaqueCall(s *State, instr ssa.Instruction, name string, callee *ssa.Function, args []Value, resT types.Type, bind func(*State, Value)) []*State {
 	in := x.in
+	if in.Cfg.OnExternalCall != nil {
+		in.Cfg.OnExternalCall(instr, name, args, s.h)
+	}
 	in.Notes["external callee assumed not to panic: "+name]++
 	if traceForks && externalWrites(name) {
 		fmt.Printf("[extwrite] %s\n", name)
@@ -557,6 +563,16 @@ func (x *fnExec) builtin(s *State, instr ssa.Instruction, b *ssa.Builtin, c *ssa
 				r.Fresh = true
 				cp := in.Atoms.Fresh("cap:append", 0, PosInf)
 				cp.Defs = []Lin{AtomLin(cp).Sub(nl)}
+				// the prefix keeps its known bytes
+				if bo, ok := base.Off.ConstVal(); ok && base.Reg != nil && len(s.h.known[base.Reg]) > 0 {
+					if m := glb(s.h, base.Len); m > 0 {
+						for _, k := range s.h.known[base.Reg] {
+							if k.off >= bo && k.off-bo < m {
+								s.h.setKnown(r, k.off-bo, k.val)
+							}
+						}
+					}
+				}
 				bind(s, SliceV{Reg: r, Len: nl, Cap: AtomLin(cp)})
 				return []*State{s}
 			}
@@ -657,13 +673,17 @@ func (x *fnExec) modelled(s *State, instr ssa.Instruction, callee *ssa.Function,
 					// value = 256*hi + lo with hi, lo bytes
 					hiA := in.Atoms.Struct("hi8("+iv.L.String()+")", 0, 255, iv.L)
 					loA := in.Atoms.Struct("lo8("+iv.L.String()+")", 0, 255, iv.L)
-					if len(hiA.Defs) == 0 {
-						vlo, vhi := iv.L.Bounds()
-						if vlo >= 0 && vhi <= 65535 {
-							eq := AtomLin(hiA).Scale(256).Add(AtomLin(loA)).Sub(iv.L)
+					eq := AtomLin(hiA).Scale(256).Add(AtomLin(loA)).Sub(iv.L)
+					vlo, vhi := iv.L.Bounds()
+					if vlo >= 0 && vhi <= 65535 {
+						if len(hiA.Defs) == 0 {
 							hiA.Defs = []Lin{eq, eq.Neg()}
 							loA.Defs = []Lin{eq, eq.Neg()}
 						}
+					} else if s.h.entails(iv.L) && s.h.entails(Const(65535).Sub(iv.L)) {
+						// in range in this state only: a state fact, not a definition of the (hash-consed) atoms
+						s.h.addFact(eq)
+						s.h.addFact(eq.Neg())
 					}
 					s.h.setKnown(sv.Reg, o, AtomLin(hiA))
 					s.h.setKnown(sv.Reg, o+1, AtomLin(loA))
